@@ -322,4 +322,16 @@ Definition growth_inputs (ps : list P) (d : P) (p : nat) : A * B * nat * C :=
   let q := nth p ps d in (gbounds q, gibbs q (gbounds q), gname q, gbeta q).
 End GrowthInputs.
 
+(* a per-phase callback created inside a loop over the phases (PrecipitateModel._setupAspectRatio installs the aspect
+   ratio function of a phase this way).  A Python closure looks a free loop variable up when it is CALLED - after the
+   loop, that is the last index - whereas a default argument (`lambda R, p1=p: ...`) binds it when the closure is made *)
+Section Closures.
+Context {P T : Type}.
+Variable table : P -> T.                  (* what the callback reads of "its" phase *)
+Inductive binding := Early | Late.
+Definition closure_phase (b : binding) (n p : nat) : nat := match b with Early => p | Late => n - 1 end.
+Definition callback (b : binding) (ps : list P) (d : P) (p : nat) : T :=
+  table (nth (closure_phase b (length ps) p) ps d).
+End Closures.
+
 Arguments delete_at {A} k l.
